@@ -228,6 +228,7 @@ def run_impl(fn, A, itr, seed, D=None, B=None, t=8.0):
     res['events'] = [kw for tag, kw in _verif.LOG if tag == 'swap']
     res['draws'] = flatten_draws(rec.log)
     _verif.reset()
+    tie_variants(res, 'input_variant')       # input-representation layer: the model comparison (compare_run) is batched and comes later
     return res
 
 
@@ -286,6 +287,8 @@ def dec_result(m):
 def compare_run(ctx, key, case, res, mod):
     """correspondence of one run: final matrices, eff, every accepted swap's state, stream fully consumed"""
     want = expected_code(res)
+    if res.get('input_variant') and isinstance(case, dict):
+        case = dict(case, _input_variant=res['input_variant'])
     if res['error']:
         if want is not None and mod['code'] != want:
             ctx.mismatch(key, 'implementation: %s; model outcome %s (expected %s)' % (res['error'], OUTCOME[mod['code']], OUTCOME[want]), case)
